@@ -1306,10 +1306,11 @@ type lookupOutcome struct {
 
 // lookupEval evaluates f (the method load, or the operator where when isOp) on the SSA form with a
 // dictionary stack [d0 … d(n-1)] whose dictionaries are opaque: a look-up of the key in d_i
-// answers (val@i, true) if present[i], (nil, false) otherwise.  The walk may be an index loop, a
+// answers (val@i, true) if present[i] is 1, (nil, true) if it is 2 — the name is defined and its
+// value is the nil Object, which is what `currentfile` pushes — and (nil, false) otherwise.  The walk may be an index loop, a
 // range loop over a reversed copy or a library iterator (slices.Backward, slices.All, …, evaluated
 // from their source): only the look-ups made and the result count.
-func (c *Ctx) lookupEval(ia *interpAnchors, f *ssa.Function, isOp bool, present []bool) lookupOutcome {
+func (c *Ctx) lookupEval(ia *interpAnchors, f *ssa.Function, isOp bool, present []int) lookupOutcome {
 	var o lookupOutcome
 	ev := &ssaEval{c: c, bind: map[ssa.Value]sv{}, mem: map[string]sv{}}
 	var ds []sv
@@ -1345,8 +1346,12 @@ func (c *Ctx) lookupEval(ia *interpAnchors, f *ssa.Function, isOp bool, present 
 		fmt.Sscanf(m.s, "Dict:d%d", &i)
 		o.calls++
 		val, ok := sv{k: svNil}, false
-		if i >= 0 && i < len(present) && present[i] {
+		if i >= 0 && i < len(present) && present[i] == 1 {
 			val, ok = symV(fmt.Sprintf("val@%d", i)), true
+		}
+		if i >= 0 && i < len(present) && present[i] == 2 {
+			// the name is defined, its value is the nil Object (what currentfile pushes)
+			val, ok = sv{k: svNil}, true
 		}
 		if !x.CommaOk {
 			return val, true
@@ -1419,15 +1424,23 @@ func (c *Ctx) lookupEval(ia *interpAnchors, f *ssa.Function, isOp bool, present 
 // decided=false: an evaluation stopped; the caller falls back to the shape of the scan.
 func (c *Ctx) lookupByEvaluation(ia *interpAnchors, f *ssa.Function, isOp bool) (bad []string, cells int, decided bool) {
 	for n := 1; n <= 4; n++ {
-		for mask := 0; mask < 1<<n; mask++ {
-			present := make([]bool, n)
+		total := 1
+		for i := 0; i < n; i++ {
+			total *= 3
+		}
+		for mask := 0; mask < total; mask++ {
+			present := make([]int, n)
 			top := -1
 			var in []string
-			for i := 0; i < n; i++ {
-				if mask&(1<<i) != 0 {
-					present[i] = true
+			for i, m := 0, mask; i < n; i, m = i+1, m/3 {
+				present[i] = m % 3
+				switch present[i] {
+				case 1:
 					top = i
 					in = append(in, fmt.Sprintf("d%d", i))
+				case 2:
+					top = i
+					in = append(in, fmt.Sprintf("d%d (value: the nil object)", i))
 				}
 			}
 			cells++
@@ -1441,6 +1454,8 @@ func (c *Ctx) lookupByEvaluation(ia *interpAnchors, f *ssa.Function, isOp bool) 
 				wantRet, wantVal = "nil", fmt.Sprintf("[Integer:keep Dict:d%d true]", top)
 			case isOp:
 				wantRet, wantVal = "nil", "[Integer:keep false]"
+			case top >= 0 && present[top] == 2:
+				wantRet, wantVal = "nil", "nil"
 			case top >= 0:
 				wantRet, wantVal = "nil", fmt.Sprintf("val@%d", top)
 			default:
